@@ -21,6 +21,7 @@ type stepCtx struct {
 	objs map[int]reflect.Value // destination objects (*S) of decode steps
 
 	emitLine func(string) // writes one trace line of the running step at once
+	par      bool         // inside a concurrent section: process-wide counters are meaningless
 }
 
 func num(m map[string]interface{}, k string, def int) int {
@@ -105,6 +106,8 @@ func (c *stepCtx) runStep(k int, st map[string]interface{}) []string {
 		return c.stepDeep(st)
 	case "reject":
 		return c.stepReject(st)
+	case "par":
+		return c.stepPar(k, st)
 	case "legacy":
 		return []string{c.stepLegacy(st)}
 	case "allocs":
@@ -344,7 +347,7 @@ func (c *stepCtx) stepDecode(k int, st map[string]interface{}) string {
 	inpost := digestBytes(in)
 	head := fmt.Sprintf(`"ev":"Decode","ty":%q,"in":%s,"dest":%s,"orig":%d,"obs":{"inpre":%q,"inpost":%q,"alloc":%d,"us":%d,`,
 		ty, jbytes(in), destJSON, num(st, "orig", -1), inpre, inpost,
-		clamp(ms1.TotalAlloc-ms0.TotalAlloc), clamp(uint64(us)))
+		c.quiet(clamp(ms1.TotalAlloc-ms0.TotalAlloc)), c.quiet(clamp(uint64(us))))
 	if pan != nil {
 		return head + panicObs(pan) + "}"
 	}
@@ -353,6 +356,13 @@ func (c *stepCtx) stepDecode(k int, st map[string]interface{}) string {
 	}
 	c.objs[k] = dest
 	return head + fmt.Sprintf(`"out":"ok","n":%d,"val":%s}`, n, projectStruct(ty, dest))
+}
+
+func (c *stepCtx) quiet(x int) int {
+	if c.par {
+		return 0
+	}
+	return x
 }
 
 func clamp(x uint64) int {
